@@ -125,7 +125,27 @@ def harness(name, stubs, body, extra=()):
 RESIZE_STUB = []   # Kani cannot stub impls on generic types (Vec<T, A>); absurd resizes surface as capacity-overflow panics / CBMC max-allocation checks
 
 
+def pwhash_suite(tier):
+    """PwHash::from_string on any record the (stubbed) string parser can return: no panic / overflow (the parser itself is
+    out of reach, see C10)"""
+    from props import c10
+    src = rs.prelude() + rs.load("rng.rs") + c10.BODY
+    hs = []
+    for hl, sl in ([(32, 16)] if tier == "quick" else [(32, 16), (16, 8), (64, 32)]):
+        n = "c04_PwHash_from_string_parsed_h%d_s%d" % (hl, sl)
+        src += c10.h_from_string(n, hl, sl)
+        hs.append(Harness(n, unwind=80, timeout=900, site="PwHash::from_string", desc="PwHash::from_string + verify on an arbitrary parsed record (all 2^32 x 2^32 costs): no panic / arithmetic overflow", bounds={"hash_len": hl, "salt_len": sl}))
+    s = Suite("C04", src, hs, features=["base64"], stubs=rs.stub_names(("barrier", "fmt"), extra=c10.PARSE_STUB + c10.A2_STUB),
+              functions=["pwhash::PwHash::{from_string,verify}"], assumptions=["the string parser is a contract stub (C10); Argon2 is a contract stub (C09)"])
+    s.tag = "e1-base64"
+    return s
+
+
 def suites(tier, seed):
+    return _suites(tier, seed) + [pwhash_suite(tier)]
+
+
+def _suites(tier, seed):
     src = rs.prelude() + rs.load("aead.rs") + rs.load("dalek.rs") + USES
     hs = []
     stubs = set()
@@ -245,6 +265,15 @@ CALLS = {
 
 
 def replay(v, scratch):
+    if v["harness"].startswith("c04_PwHash_from_string_parsed"):
+        from props import c10
+        import re
+        m = re.search(r"_h(\d+)_s(\d+)", v["harness"])
+        return c10.replay_from_string(v, scratch, int(m.group(1)), int(m.group(2)))
+    return _replay(v, scratch)
+
+
+def _replay(v, scratch):
     """Native replay: the same call on the witness bytes; a panic (or abort) reproduces the finding.
     For the authentic-any-tag stream harness the witness cannot be used directly (the real MAC differs from the
     ideal one), so the replay produces an authentic message natively by pushing with a raw tag byte."""
